@@ -292,11 +292,14 @@ def strip_space(interp, s, left, right):
             m2 = strings._fresh(interp, 'strip.m')
             st._add(z3.Or(r == z3.StringVal(''),
                           z3.And(r == z3.Concat(m2, c2), z3.Length(c2) == 1, z3.Not(cc.at(c2)))))
+        # a stripped result that is not empty contains a character that is not white space
+        st._add(z3.Or(r == z3.StringVal(''), z3.Not(cc.fn(r))))
         pieces = [x for x in (a, r, b) if not (z3.is_string_value(x) and x.as_string() == '')]
         strings._decomps(interp, t).append(strings.Dec(pieces))
         saved = st.scopes
         st.scopes = []
         try:
+            _make_relevant(interp, cc, t, 0)
             strings.note_concat(interp, t, [a, r, b])
             for x in (a, b, r):
                 if not z3.is_string_value(x):
